@@ -360,6 +360,8 @@ class RandInfoBuilder(ModelVisitor,RandIF):
                 # entire (possibly variable-size) scalar array
                 for f in e.fm.field_l:
                     self.process_fieldref(f)
+                if e.fm.is_rand_sz:
+                    self.process_fieldref(e.fm.size)
             else:
                 self.process_fieldref(fm)
  
